@@ -119,15 +119,16 @@ func (w *World) Restart() {
 type FaultKind int
 
 const (
-	NoFault      FaultKind = iota
-	ErrBefore              // the call fails with a 500 and has no effect
-	LostResponse           // the call takes effect, the caller sees a timeout
-	Crash                  // the process dies before the call is sent
-	ForeignWrite           // another actor's write to the call's target lands just before the call (resourceVersion bump)
+	NoFault        FaultKind = iota
+	ErrBefore                // the call fails with a 500 and has no effect
+	LostResponse             // the call takes effect, the caller sees a timeout
+	Crash                    // the process dies before the call is sent
+	ForeignWrite             // another actor's write to the call's target lands just before the call (resourceVersion bump)
+	ConflictBefore           // the call is answered 409 Conflict and has no effect (the server lost a race with another writer)
 )
 
 func (f FaultKind) String() string {
-	return [...]string{"none", "error-before", "lost-response", "crash", "foreign-write-before"}[f]
+	return [...]string{"none", "error-before", "lost-response", "crash", "foreign-write-before", "conflict-before"}[f]
 }
 
 // Plan steers one pass.
@@ -208,6 +209,10 @@ func (h *hook) Before(r *kmodel.Request) error {
 			h.w.S.Touch(r.Key)
 		case ErrBefore:
 			r.Err = apierrors.NewInternalError(fmt.Errorf("injected fault before effect"))
+			r.Post = r.Pre
+			return r.Err
+		case ConflictBefore:
+			r.Err = apierrors.NewConflict(schema.GroupResource{Group: r.Key.Group, Resource: strings.ToLower(r.Key.Kind) + "s"}, r.Key.Name, fmt.Errorf("injected: the object has been modified"))
 			r.Post = r.Pre
 			return r.Err
 		case Crash:
